@@ -302,7 +302,7 @@ def finalize_skeleton(ctx, F, r):
         ctx.missing(r, err, cfg=F.key)
         return
     b = M.body
-    if M.unknown:
+    if M.unknown and finalize_table_evaluated(F, M)[0] is None:
         ctx.missing(r, "unrecognised branch condition(s) in finalize_with_options: %s" % M.unknown[:3], cfg=F.key)
     rets = [p for p in M.paths if p["end"] == "return"]
     ctx.instance(r, len(rets))
@@ -391,10 +391,26 @@ def finalize_skeleton(ctx, F, r):
            "aggregator fed the unsorted array: %s" % detail, cfg=F.key, where=b.where())
     # (c) arithmetic widths; (e) Ok value
     hf = hash_fields(F)
+    ev_rows, _ = finalize_table_evaluated(F, M)
+    by_path = {}
+    if ev_rows is not None:
+        for (o_, d_, res_), rp_ in zip(ev_rows, M.row_paths):
+            if res_[0] == "Ok":
+                by_path.setdefault(id(rp_), set()).add((bool(o_["pure"]), bool(d_["Z"])))
     for p in oks:
         ok_val = p["res"][1]
         pure = [e for e in p["events"] if e[0] == "flag" and e[1][0] == comp_f]
         dummy = any(e[0] == "zero_test" and e[1] for e in p["events"])
+        modes_ = by_path.get(id(p["p"]))
+        if ev_rows is not None:
+            # which arithmetic an Ok path uses, from the assignments that select it in the evaluated table
+            if not modes_:
+                continue  # an Ok path no assignment selects: infeasible
+            if len({m_[0] for m_ in modes_}) != 1 or len({m_[1] for m_ in modes_}) != 1:
+                ctx.ob(r, ("finalize", "pure-integer-test-count"), False, "one Ok path serves both Q-ratio modes or both quartile cases: %s" % sorted(modes_), cfg=F.key)
+                continue
+            integer, dummy = next(iter(modes_))
+            pure = [("flag", (comp_f,), integer)]
         Q1, Q2, Q3 = (C(1), C(1), C(1)) if dummy else (q1, q2, q3)
         if len(pure) != 1:
             ctx.ob(r, ("finalize", "pure-integer-test-count"), False, "Ok path tests the compat flags %d times" % len(pure), cfg=F.key)
@@ -648,10 +664,161 @@ def enum_decision(F, path, param_enums):
     return table, None
 
 
+def finalize_table_evaluated(F, M):
+    """The 512-row table by abstract evaluation of finalize_with_options itself (any spelling of its conditions): options = the five
+    option bits as concrete flag words and the mode enum; DataLengthValidity::new(..) = the chosen validity class; the three
+    select_nth_unstable pivots = concrete numbers with q3 == 0 or not; the non-zero bucket count = MIN_NONZERO_BUCKETS - 1 or
+    MIN_NONZERO_BUCKETS.  Returns (rows, None) like finalize_table, or (None, reason) when the function cannot be evaluated."""
+    import itertools
+    from .. import evalx
+    setters = option_setters(F)
+    of = options_fields(F)
+    need = {"allow_small_size_files", "allow_statistically_weak_buckets_half", "allow_statistically_weak_buckets_quarter", "pure_integer_qratio_computation"}
+    if not setters or not of or not need <= set(setters):
+        return None, "option setters not recognised"
+    tab, err = enum_decision(F, "length::DataLengthValidity::is_err_on", {1: "length::DataLengthValidity", 2: "length::DataLengthProcessingMode"})
+    if tab is None:
+        return None, err
+    validity = enum_variants(F, "length::DataLengthValidity")
+    if getattr(M, "_evaluated", None) is not None:
+        return M._evaluated
+    b = M.body
+    S = M.S
+    paths = [q["p"] for q in M.paths]  # the very path objects of the model, so that rows can be related to its paths
+    evalx.set_target(F)
+    M.row_paths = []
+    envs = None
+    try:
+        from . import layout
+        envs = layout.variant_envs(F)
+    except Exception:
+        envs = None
+    if not envs:
+        return None, "variant constants"
+    env = dict(envs[1][1])  # Normal: 128 buckets
+    cv = {k.split(":", 1)[1].rsplit("::", 1)[-1]: v for k, v in env.items() if k.startswith("assoc:")}
+    cps = {k: v for k, v in env.items() if not k.startswith("assoc:") and isinstance(v, int)}
+    MIN = cv.get("MIN_NONZERO_BUCKETS")
+    if not isinstance(MIN, int):
+        return None, "MIN_NONZERO_BUCKETS"
+    OPT, SELF = ("obj", "options"), ("obj", "self")
+    rows = []
+    for small, half, quarter, cons, pure in itertools.product((0, 1), repeat=5):
+        flags = {}
+        for nm, on in (("allow_small_size_files", small), ("allow_statistically_weak_buckets_half", half),
+                       ("allow_statistically_weak_buckets_quarter", quarter), ("pure_integer_qratio_computation", pure)):
+            f, mask = setters[nm]
+            flags[f] = flags.get(f, 0) | (mask if on else 0)
+        mode = "Conservative" if cons else "Optimistic"
+        for vname in validity:
+            gate = tab[(vname, mode)]
+            if gate[0] != "return" or gate[1][0] != "const":
+                return None, "is_err_on(%s,%s) is %s" % (vname, mode, gate)
+            G = bool(gate[1][1])
+            for Z, H in itertools.product((False, True), repeat=2):
+                q1, q2, q3 = (0, 0, 0) if Z else (3, 5, 7)
+
+                def flagword(x):
+                    if isinstance(x, tuple) and len(x) == 3 and x[0] == "fld" and x[1] == OPT and x[2] in (of["compat"], of["incompat"]):
+                        return flags.get(x[2], 0)
+                    if isinstance(x, int):
+                        return x
+                    raise evalx.Unknown("flag word %r" % (x,))
+
+                def select(part, k_):
+                    if isinstance(part, tuple) and part[:1] == ("part",):
+                        if part[1] == "L":
+                            return (("part", "LL"), q1, ("part", "LR"))
+                        if part[1] == "R":
+                            return (("part", "RL"), q3, ("part", "RR"))
+                        raise evalx.Unknown("select_nth_unstable on %r" % (part,))
+                    return (("part", "L"), q2, ("part", "R"))
+
+                def count(x):
+                    if isinstance(x, tuple) and x[:1] == ("filtered",):
+                        return MIN - 1 if H else MIN
+                    raise evalx.Unknown("count of %r" % (x,))
+
+                def apply_closure(cl, args):
+                    if not (isinstance(cl, tuple) and cl[:1] == ("closure",)):
+                        raise evalx.Unknown("not a closure: %r" % (cl,))
+                    cb_ = F.fn(cl[1])
+                    if cb_ is None or cb_.mir is None:
+                        raise evalx.Unknown("closure body")
+                    S3 = sym.Sym(cb_)
+                    ps = {1: cl[2]}
+                    for i_, a_ in enumerate(args):
+                        ps[2 + i_] = a_
+                    return evalx.run(S3, F, S3.paths(), {"symbolic": True, "params": ps, "cparams": cps, "cpath_values": cv})
+
+                def fold(it, init, cl):
+                    # a fold that counts the non-zero items: f(acc, x) == acc + (x != 0) on sample points
+                    if isinstance(it, tuple) and it[:1] == ("iter",) and init == 0 and all(apply_closure(cl, [a_, x_]) == a_ + (1 if x_ else 0) for a_, x_ in ((5, 0), (5, 7), (0, 1), (9, 0), (2, 4294967295))):
+                        return MIN - 1 if H else MIN
+                    raise evalx.Unknown("fold over %r" % (it,))
+
+                def msum(x):
+                    if isinstance(x, tuple) and x[:1] == ("mapped",) and isinstance(x[1], tuple) and x[1][:1] == ("iter",) \
+                            and all(apply_closure(x[2], [x_]) == (1 if x_ else 0) for x_ in (0, 1, 7, 4294967295)):
+                        return MIN - 1 if H else MIN
+                    raise evalx.Unknown("sum of %r" % (x,))
+                calls = {
+                    "::contains": lambda a, m: int((flagword(a) & flagword(m)) == flagword(m)),
+                    "::intersects": lambda a, m: int((flagword(a) & flagword(m)) != 0),
+                    "::bitor": lambda a, m: flagword(a) | flagword(m),
+                    "GeneratorType>::processed_len": lambda s_: ("Some", ("obj", "len")),
+                    "length::DataLengthValidity::new": lambda *a: ("adt", "length::DataLengthValidity::" + vname),
+                    "length::FuzzyHashLengthEncoding::new": lambda l_: ("Some", ("obj", "lvalue")),
+                    "core::slice::<impl [T]>::select_nth_unstable": select,
+                    "core::slice::<impl [T]>::iter": lambda x: ("iter", x),
+                    "core::iter::Iterator::filter": lambda it, cl: ("filtered", it, cl),
+                    "Iterator>::count": count, "core::iter::Iterator::count": count,
+                    "core::iter::Iterator::fold": fold, "Iterator>::fold": fold,
+                    "core::iter::Iterator::map": lambda it, cl: ("mapped", it, cl),
+                    "core::iter::Iterator::sum": msum, "Iterator>::sum": msum,
+                    "FuzzyHashBucketMapper::aggregate_buckets": lambda *a: ("zst",),
+                    "TryInto<U>>::try_into": lambda x: ("Ok", x),
+                    "hash::qratios::FuzzyHashQRatios::new": lambda a, c_: ("obj", "qratios"),
+                    "core::num::<impl u32>::wrapping_mul": lambda a, c_: (a * c_) & 0xFFFFFFFF if isinstance(a, int) and isinstance(c_, int) else ("obj", "product"),
+                }
+                asg = {"symbolic": True, "params": {1: SELF, 2: OPT}, "cparams": cps, "cpath_values": cv, "calls": calls,
+                       "fields": {("fld", OPT, of["mode"]): ("adt", "length::DataLengthProcessingMode::" + mode)}}
+                try:
+                    p = evalx.select(S, F, paths, asg)
+                except evalx.Panics as ex:
+                    return None, "finalize panics under options %s, validity %s, q3==0:%s, few buckets:%s (%s)" % ((small, half, quarter, cons, pure), vname, Z, H, ex)
+                except evalx.Unknown as ex:
+                    return None, "cannot evaluate finalize_with_options: %s" % ex
+                ret = n(p.ret, keep_casts=True)
+                if ret[0] == "agg" and ret[1].endswith("Result::Err") and ret[2] and ret[2][0][0] == "agg":
+                    res = ("Err", ret[2][0][1].rsplit("::", 1)[-1])
+                elif ret[0] == "agg" and ret[1].endswith("Result::Ok"):
+                    res = ("Ok", ret[2][0])
+                else:
+                    try:
+                        rv = evalx.ev(S, F, p.ret, asg)
+                    except (evalx.Unknown, evalx.Panics) as ex:
+                        return None, "cannot evaluate the value finalize returns: %s" % ex
+                    if isinstance(rv, tuple) and rv[:1] == ("Err",) and isinstance(rv[1], tuple) and rv[1][:1] == ("adt",):
+                        res = ("Err", rv[1][1].rsplit("::", 1)[-1])
+                    elif isinstance(rv, tuple) and rv[:1] == ("Ok",):
+                        res = ("Ok", rv[1])
+                    else:
+                        return None, "finalize returns %r" % (rv,)
+                rows.append(({"small": small, "half": half, "quarter": quarter, "cons": cons, "pure": pure},
+                             {"validity": vname, "Z": Z, "H": H, "gate": G}, res))
+                M.row_paths.append(p)
+    M._evaluated = (rows, None)
+    return rows, None
+
+
 def finalize_table(F, M):
     """Evaluate the finalize path model on every combination of option values and data outcomes.
     Returns (rows, error); a row is (opts dict, data dict, result)."""
     import itertools
+    rows_, err_ = finalize_table_evaluated(F, M)
+    if rows_ is not None:
+        return rows_, None
     setters = option_setters(F)
     if not setters:
         return None, "option setters not recognised"
